@@ -140,6 +140,7 @@ impl RuleSpec {
 }
 
 /// start/end instants of a rule for a window of years
+#[derive(Debug, PartialEq)]
 pub struct Timeline {
     pub y0: i64,
     pub s: Vec<i64>,
